@@ -171,7 +171,7 @@ def run(ctx):
         docs = list(gen.uniq(small + gen.sample(s1, 1500, ctx.seed) + gen.sample(s2, 1200, ctx.seed + 1) + gen.sample(s3, 600, ctx.seed + 2) + gen.sample(s4, 1500, ctx.seed + 3)))
         alone_docs = small
     else:
-        docs = list(gen.uniq(s1 + s2 + s3 + s4))
+        docs = list(gen.uniq(small + s1 + s2 + s3 + s4))
         alone_docs = list(gen.uniq(small + gen.sample(s1, 600, 12345)))
     docs = [d for d in docs if d.strip()]
     alone_docs = [d for d in alone_docs if d.strip()]
